@@ -1,5 +1,5 @@
 //! C09 — the JSON and Cedar schema syntaxes denote the same schema.
-//! Deviation bounding from a minimal schema: all feature subsets of size <= 2 (quick) / <= 3
+//! Deviation bounding from a minimal schema: all feature subsets of size <= 3 (quick) / <= 4
 //! (thorough); each schema is written in both syntaxes, translated by the real code in both
 //! directions and re-loaded; loaded schemas must be equal and give identical verdicts.
 use crate::harness::*;
@@ -377,7 +377,7 @@ pub fn run(tier: Tier, replay_file: Option<&str>) -> i32 {
             }
         }
     }
-    let subs = subsets(feats.len(), tier.pick(2, 3));
+    let subs = subsets(feats.len(), tier.pick(3, 4));
     ctx.set_info("features", json!(feats.iter().map(|f| f.0).collect::<Vec<_>>()));
     ctx.set_info("schemas", json!(subs.len()));
     subs.par_iter().for_each(|sub| {
@@ -492,8 +492,8 @@ pub fn run(tier: Tier, replay_file: Option<&str>) -> i32 {
     ctx.sample(json!({"cedar": d.cedar(), "json": d.json()}));
     ctx.sample(json!({"cedar": base().cedar()}));
     ctx.finish(
-        "deviation bounding from a minimal schema: every subset of <= 2 (quick) / <= 3 (thorough) of 18 schema features (extra namespaces with cross references, common types: plain / chained / cross-namespace / named like an extension type / shadowing an entity name of another namespace, nested and extension attribute types, tags, enum entities, memberOf across namespaces, action groups within and across namespaces, context by common-type reference, annotations, identifiers needing quotes, appliesTo variants), written in both syntaxes; translation both ways + reload, schema equality, 25-policy validation battery and 17 request/entity validations under every variant; case = feature subset and each translation leg; non-trivial = at least one feature on",
-        json!({"tier": tier.name(), "features": 18, "max_features_on": tier.pick(2, 3)}),
+        "deviation bounding from a minimal schema: every subset of <= 3 (quick) / <= 4 (thorough) of 18 schema features (extra namespaces with cross references, common types: plain / chained / cross-namespace / named like an extension type / shadowing an entity name of another namespace, nested and extension attribute types, tags, enum entities, memberOf across namespaces, action groups within and across namespaces, context by common-type reference, annotations, identifiers needing quotes, appliesTo variants), written in both syntaxes; translation both ways + reload, schema equality, 25-policy validation battery and 17 request/entity validations under every variant; case = feature subset and each translation leg; non-trivial = at least one feature on",
+        json!({"tier": tier.name(), "features": 18, "max_features_on": tier.pick(3, 4)}),
         &["ValidatorSchema: PartialEq is the schema equality (cross-checked by validation verdicts)", "a translation that returns Err is skipped and counted, as the statement allows"],
         true,
     )
